@@ -68,6 +68,17 @@ Example C15_ignore_nonvacuous :
   = [[98;117;105;108;100;42;42]%N; [42;46;116;109;112]%N].
 Proof. vm_compute. reflexivity. Qed.
 
+(** "with the file's exact content": what the shard holds for content c — c itself unless Builder.Add's skip rules apply
+    (larger than SizeMax, 1-2 bytes, contains NUL), then the explanation marker. *)
+Theorem C15_builder_view_cases : forall size_max c,
+  (size_max < length c -> builder_view size_max c = marker_too_large) /\
+  (length c <= size_max -> c = [] -> builder_view size_max c = []) /\
+  (length c <= size_max -> 1 <= length c < 3 -> builder_view size_max c = marker_too_small) /\
+  (length c <= size_max -> 3 <= length c -> In 0%N c -> builder_view size_max c = marker_binary) /\
+  (length c <= size_max -> 3 <= length c -> ~ In 0%N c -> builder_view size_max c = c).
+Proof. exact builder_view_cases. Qed.
+Print Assumptions C15_builder_view_cases.
+
 (** stripComponents removes exactly [count] leading '/'-terminated components ... *)
 Theorem C15_strip_components_complete : forall comps r,
   Forall slash_free comps -> strip_components (join_prefix comps ++ r) (length comps) = r.
